@@ -1,4 +1,5 @@
 CONSTANT Instance = "vararith"
+CONSTANT NL = 2
 CONSTANT Disabled = {}
 CONSTANT Mutant = "nopad_native"
 INIT Init
